@@ -96,7 +96,7 @@ NamesOf(m) == CASE m = "A" -> <<"Other">>          \* A also exports K: "an impo
                 [] m = "C" -> <<"Cat", "Cow">>
 ImportPool == {"A", "B", "C"}
 CommentKinds == {"none", "line", "block"}
-Layouts == {"plain", "tight", "trail", "oneline"}
+Layouts == {"plain", "tight", "trail", "oneline", "stray"}
 
 ModuleText(m, nexp) ==
   CASE m = "A" -> "class Foo {\n  function bar(): int = 2\n}\nclass Other {\n  function baz(): int = 3\n}\n"
@@ -120,6 +120,8 @@ Stmt(imp, tight) ==
 CommentText(imp) == IF imp.cmt = "line" THEN "// about " \o imp.mod ELSE "/* about " \o imp.mod \o " */"
 
 RestPlain == << "class Main {", "  function main(): int = Foo.bar()", "}" >>
+\* a document that already has syntax errors behind the class (the property speaks of NEW syntax errors)
+RestStray == RestPlain \o << "stray tokens" >>
 RestDoc   == << "/** The entry point. */", "class Main {", "  function main(): int = Foo.bar()", "}" >>
 RestTwo   == << "class Main {", "  function main(): int = Foo.bar()", "  function again(): int = 1 + Foo.bar()", "}",
                 "interface Last {}" >>
@@ -161,6 +163,8 @@ Render(imps, layout) ==
   LET n == Len(imps) IN
   CASE layout = "plain" ->
          Flatten([i \in 1..n |-> PlainImport(imps[i])]) \o RestPlain \o <<"">>
+    [] layout = "stray" ->
+         Flatten([i \in 1..n |-> PlainImport(imps[i])]) \o RestStray \o <<"">>
     [] layout = "tight" ->
          <<"">> \o Flatten([i \in 1..n |-> TightImport(imps[i])]) \o <<"">> \o RestDoc
     [] layout = "trail" ->
